@@ -226,9 +226,8 @@ impl DbInner {
 		}
 		log::debug!(target: "parity-db", "Opened db {:?}, metadata={:?}", options, metadata);
 		let mut options = options.clone();
-		if options.salt.is_none() {
-			options.salt = Some(metadata.salt);
-		}
+		// The columns hash keys with the stored salt, whatever the caller asked for.
+		options.salt = Some(metadata.salt);
 
 		Ok(DbInner {
 			columns,
